@@ -391,7 +391,7 @@ impl Harness for C15 {
         }
 
         // ---- cluster scores: every pair of labellings
-        let hcv_plan: &[(usize, usize)] = if t { &[(2, 10), (3, 8), (4, 6), (5, 5)] } else { &[(2, 8), (3, 6), (4, 4)] };
+        let hcv_plan: &[(usize, usize)] = if t { &[(2, 12), (3, 8), (4, 6), (5, 5)] } else { &[(2, 8), (3, 6), (4, 4)] };
         for (k, nmax) in hcv_plan {
             for n in 1..=*nmax {
                 // {0,1}^n is contained in {0,1,2}^n: skip what a larger alphabet already covers
@@ -448,12 +448,12 @@ impl Harness for C15 {
 
         // ---- ROC-AUC
         // every score vector over {0,1/4,1/2,1} x every label vector
-        let q4_max = if t { 9 } else { 7 };
+        let q4_max = if t { 10 } else { 7 };
         for n in 2..=q4_max {
             push_split(&mut jobs, &format!("auc-q4-n{}", n), json!({"kind": "auc", "n": n, "alpha": 0, "seed": seed, "f32": n <= 6}), &[vec![4; n], vec![2; n]].concat(), cap);
         }
         // {0,1,2}: n >= 8 reaches the partition code of the sort
-        let t3_max = if t { 10 } else { 8 };
+        let t3_max = if t { 11 } else { 8 };
         for n in 8..=t3_max {
             push_split(&mut jobs, &format!("auc-t3-n{}", n), json!({"kind": "auc", "n": n, "alpha": 1, "seed": seed, "f32": n <= 8}), &[vec![3; n], vec![2; n]].concat(), cap);
         }
